@@ -369,7 +369,7 @@ func c04VariableLogic(c *Ctx, pkg string) {
 			if len(ret.Results) != 1 {
 				return false, false
 			}
-			switch op(ret.Results[0]).k {
+			switch op(unspill(ret, 0)).k {
 			case aiNil:
 				return false, true
 			case aiNonNil:
@@ -433,9 +433,13 @@ func c04EveryHeaderConditionEvaluated(c *Ctx, pkg string) {
 				return ok && strings.HasSuffix(calleeName(call.Common()), "variable.GetString")
 			},
 			func(in ssa.Instruction) bool {
+				// since repair 114 (d9f978f36) the variable conditions are value matchers like the header ones
+				if call, ok := in.(*ssa.Call); ok && methodName(call.Common()) == "Matches" {
+					return true
+				}
 				bo, ok := in.(*ssa.BinOp)
 				return ok && (bo.Op == token.EQL || bo.Op == token.NEQ) && strings.Contains(bo.X.Type().String(), "string")
-			}, "variable.GetString + comparison"},
+			}, "variable.GetString + comparison (literal or Value.Matches)"},
 	} {
 		fn := c.M(pkg, m.typ, "Matches")
 		if fn == nil {
